@@ -4,7 +4,9 @@ go 1.21
 
 require (
 	github.com/elastic/go-seccomp-bpf v0.0.0-00010101000000-000000000000
+	github.com/elastic/go-ucfg v0.8.8
 	golang.org/x/net v0.24.0
+	gopkg.in/yaml.v2 v2.4.0
 )
 
 require golang.org/x/sys v0.19.0 // indirect
